@@ -643,7 +643,7 @@ class NEB:
                 # Shift vector is final minus current
                 shift = final.atoms[j].coord - atom.coord
                 # then an equal spacing is the i-th point in the grid
-                atom.translate(vec=shift * (i / n))
+                atom.translate(vec=shift * (i / (n - 1)))
 
             intermediate_species.append(species)
 
@@ -764,8 +764,7 @@ class NEB:
 
         overall_max_distance = -np.inf
 
-        for i in range(len(self.images) // 2):
-            k = 2 * i
+        for k in range(len(self.images) - 1):
             x_i = self.images[k].coordinates
             x_j = self.images[k + 1].coordinates
 
